@@ -26,9 +26,18 @@ Judged(nd) == ~IsRoot(nd) /\ ~(nd.a = "Tick" /\ Panicked(nd))
 
 (* ---------------------------------------------------------------- C08 on recorded states *)
 C08BooksRoot(nd)   == IsRoot(nd) => BooksLend(Post(nd)) /\ BooksBorrow(CfgOf(nd), Post(nd))
-C08BooksLend(nd)   == Judged(nd) => DBooksLend(Pre(nd), Post(nd))
+(* a step in which some position is handed over to a liquidation auction *)
+HandsOver(nd) == \E b \in Range(Post(nd).borrows) : b.ho /\ HasId(Pre(nd).borrows, b.id) /\ ~GetId(Pre(nd).borrows, b.id).ho
+(* ... and in which a lend position that still had available funds or other pledged borrows disappears. NAMED DEVIATION:  *)
+(* UpdateLockedBorrows (liquidate.go:388-396) deletes the lend position as soon as AmountIn - collateral <= 0.              *)
+DropsLend(nd) == HandsOver(nd) /\ \E l \in Range(Pre(nd).lends) :
+                    ~HasId(Post(nd).lends, l.id) /\ (l.av > 0 \/ \E b \in Range(Post(nd).borrows) : b.lend = l.id /\ ~b.ho)
+C08BooksLend(nd)   == Judged(nd) /\ ~HandsOver(nd) => DBooksLend(Pre(nd), Post(nd))
+C08BooksLendHO(nd) == Judged(nd) /\ HandsOver(nd) /\ ~DropsLend(nd) => DBooksLend(Pre(nd), Post(nd))
+C08BooksLendHD(nd) == Judged(nd) /\ DropsLend(nd) => DBooksLend(Pre(nd), Post(nd))
 C08BooksBorrow(nd) == Judged(nd) => DBooksBorrow(CfgOf(nd), Pre(nd), Post(nd))
 C08Ltv(nd)         == Judged(nd) => LtvOnRelease(CfgOf(nd), Pre(nd), Post(nd))
+C08LtvMis(nd)      == Judged(nd) => LtvOnReleaseMismatched(CfgOf(nd), Pre(nd), Post(nd))
 C08LtvOpenBr(nd)   == Judged(nd) => LtvOnOpenBridged(CfgOf(nd), Pre(nd), Post(nd))
 C08LtvDrawBr(nd)   == Judged(nd) => LtvOnDrawBridged(CfgOf(nd), Pre(nd), Post(nd))
 C08PoolHeld(nd)    == Judged(nd) => PoolHeldLoan(CfgOf(nd), Pre(nd), Post(nd))
@@ -48,8 +57,6 @@ C08NoRelease(nd)   ==
 Walk(nd) == nd.args.mode = "w"
 Predicted == {"Lend", "Deposit", "Withdraw", "CloseLend", "Borrow", "BorrowAlt", "DepositBorrow", "Draw", "Repay", "CloseBorrow",
               "RepayWithdraw", "FundReserve", "Price", "Accrue"}
-Predictable(nd) == ~IsRoot(nd) /\ nd.args.mode \in {"w", "s"} /\ nd.a \in Predicted
-
 (* lend / borrow position the handler touches (and accrues) *)
 TouchedLend(nd) ==
   LET s == Pre(nd) a == nd.args IN
@@ -62,6 +69,12 @@ TouchedBorrow(nd) ==
   CASE nd.a \in {"Draw", "DepositBorrow", "Repay", "CloseBorrow", "RepayWithdraw"} -> IF HasId(s.borrows, a.b) THEN {a.b} ELSE {}
     [] nd.a \in {"Borrow", "BorrowAlt"} -> {b.id : b \in UserBorrowOnPair(s, a.u, a.pair)}
     [] OTHER -> {}
+
+(* steps on positions created through the collateral-asset mismatch are monitored, not predicted *)
+Predictable(nd) == /\ ~IsRoot(nd) /\ nd.args.mode \in {"w", "s"} /\ nd.a \in Predicted
+                   /\ \A bid \in TouchedBorrow(nd) : WellFormed(Pre(nd), GetId(Pre(nd).borrows, bid))
+                   /\ nd.a = "Borrow" /\ HasId(Pre(nd).lends, nd.args.lend) => GetId(Pre(nd).lends, nd.args.lend).asset = nd.args.ca
+
 
 (* environment observed in a successful recorded step: reward credited, interest carried, reserve / cToken split *)
 ObsEnv(nd) ==
@@ -117,7 +130,7 @@ Conf(nd) ==
 ConfModel(nd) == ~IsRoot(nd) /\ Walk(nd) /\ "mok" \in DOMAIN nd.res => Act(nd, WalkEnv(nd)).ok = nd.res.mok
 
 ConfNames == {"Conf_" \o x : x \in Predicted}
-Formulas == <<"C08_BooksRoot", "C08_BooksLend", "C08_BooksBorrow", "C08_Ltv", "C08_LtvOpenBridged", "C08_LtvDrawBridged", "C08_PoolHeld",
+Formulas == <<"C08_BooksRoot", "C08_BooksLend", "C08_BooksLendHandOver", "C08_BooksLendHandOverDrop", "C08_BooksBorrow", "C08_Ltv", "C08_LtvMismatched", "C08_LtvOpenBridged", "C08_LtvDrawBridged", "C08_PoolHeld",
               "C08_NoRelease", "Conf_Model", "Conf_Lend", "Conf_Deposit", "Conf_Withdraw", "Conf_CloseLend", "Conf_Borrow", "Conf_BorrowAlt",
               "Conf_DepositBorrow", "Conf_Draw", "Conf_Repay", "Conf_CloseBorrow", "Conf_RepayWithdraw", "Conf_FundReserve", "Conf_Price",
               "Conf_Accrue">>
@@ -125,7 +138,10 @@ Holds(f, i) ==
   LET nd == Nd(i) IN
   CASE f = "C08_BooksRoot" -> C08BooksRoot(nd)
     [] f = "C08_BooksLend" -> C08BooksLend(nd)
+    [] f = "C08_BooksLendHandOver" -> C08BooksLendHO(nd)
+    [] f = "C08_BooksLendHandOverDrop" -> C08BooksLendHD(nd)
     [] f = "C08_BooksBorrow" -> C08BooksBorrow(nd)
+    [] f = "C08_LtvMismatched" -> C08LtvMis(nd)
     [] f = "C08_Ltv" -> C08Ltv(nd)
     [] f = "C08_LtvOpenBridged" -> C08LtvOpenBr(nd)
     [] f = "C08_LtvDrawBridged" -> C08LtvDrawBr(nd)
@@ -142,7 +158,7 @@ Rel(nd) == IF Judged(nd) THEN Released(Pre(nd), Post(nd)) ELSE {}
 AtBoundary(nd) ==   \* a released loan for which one more coin of debt would break the inequality
   \E i \in Rel(nd) : LET b == Post(nd).borrows[i] cfg == CfgOf(nd) IN
      ~LtvHolds(cfg, Post(nd), [b EXCEPT !.out = @ + 1], PairLtv(cfg, PairC(cfg, b.pair)), IF ~HasId(Pre(nd).borrows, b.id) THEN BridgeLtv(cfg, b) ELSE One)
-HandedOver(nd) == Judged(nd) /\ \E b \in Range(Post(nd).borrows) : b.liq /\ HasId(Pre(nd).borrows, b.id) /\ ~GetId(Pre(nd).borrows, b.id).liq
+HandedOver(nd) == Judged(nd) /\ HandsOver(nd)
 RewardPaid(nd) == Judged(nd) /\ \E x \in Range(Post(nd).rout) : x.amt > Rout(Pre(nd), x.asset)
 Stats == PrintT(<<"STATS", [nodes |-> NLog,
            roots |-> Count(IsRoot),
@@ -157,6 +173,9 @@ Stats == PrintT(<<"STATS", [nodes |-> NLog,
            withdrawnWithPledge |-> Count(LAMBDA nd : nd.a = "Withdraw" /\ nd.res.ok /\ HasId(Pre(nd).lends, nd.args.lend) /\ Pledged(Pre(nd), nd.args.lend) > 0),
            repaid |-> Count(LAMBDA nd : nd.a \in {"Repay", "CloseBorrow"} /\ nd.res.ok),
            handedOver |-> Count(HandedOver),
+           handOverDropsLend |-> Count(LAMBDA nd : Judged(nd) /\ DropsLend(nd)),
+           flaggedNotHandedOver |-> Count(LAMBDA nd : Judged(nd) /\ \E b \in Range(Post(nd).borrows) : b.liq /\ ~b.ho),
+           mismatched |-> Count(LAMBDA nd : \E i \in Rel(nd) : ~WellFormed(Post(nd), Post(nd).borrows[i])),
            auctionClosed |-> Count(LAMBDA nd : nd.a = "Bid" /\ nd.res.ok),
            rewardPaid |-> Count(RewardPaid),
            stableBorrowed |-> Count(LAMBDA nd : \E i \in Rel(nd) : Post(nd).borrows[i].st),
